@@ -147,6 +147,23 @@ def run_unit(unit, rec):
                     _v(rec, "c", dict(sig, api=api, op=tag), "%s differs from own K(Q+baseline)" % api, dict(K=kname, baseline=bname, api=api, op=tag), observed=out, expected=ref)
 
         check_caps("initial", K)
+        # the transformed system handed to every fitting / gamut routine: (K A) x + K baseline must be the relative capture of x
+        rec.trans()
+        rec.path()
+        try:
+            from dreye.api.utils import apply_linear_transform
+
+            At, bt = apply_linear_transform(np.asarray(est.A, dtype=float), est.K, est.baseline)
+            At, bt = np.asarray(At, dtype=float), np.asarray(bt, dtype=float)
+            ref = _K_apply(K, lat @ A_ref.T + bvec)
+            out = lat @ At.T + bt
+            okv = out.shape == ref.shape and np.all(np.abs(out - ref) <= 1e-10 * (1 + np.abs(ref)))
+            rec.outcome("transformed-system/%s" % ("ok" if okv else "bad"))
+            if not okv:
+                _v(rec, "c", dict(sig, api="apply_linear_transform", op="initial"), "the transformed system (K A, K baseline) does not reproduce K(A x + baseline)", dict(K=kname, baseline=bname, api="apply_linear_transform"),
+                   observed=dict(A=At, baseline=bt), expected=dict(example_x=lat[-1], relative_capture=ref[-1]))
+        except Exception as e:  # noqa
+            _v(rec, "f", dict(sig, api="apply_linear_transform", **exc_sig(e)), "apply_linear_transform raised %r" % (e,), dict(K=kname, baseline=bname, api="apply_linear_transform"))
         # A itself (public observation: system_capture of the identity)
         # -- d: background adaptation
         bg = sources.sum(0) * 0.75 + 0.25
@@ -174,8 +191,27 @@ def run_unit(unit, rec):
                 _v(rec, "d", dict(sig, api="register_background_adaptation", op="bg"), "relative capture of the adapting background is not 1", dict(K=kname, baseline=bname, op="bg", with_domain=with_domain), observed=rc, expected=np.ones(m))
         Qbg = np.einsum("d,id,d->i", bg, filters, wts)
         check_caps("after-bg", 1.0 / (Qbg + bvec))
+        # -- d again: dim backgrounds in absolute radiometric units (captures of order 1e-6 .. 1e-13)
+        for dim in (1e-7, 1e-14):
+            bgd = bg * dim
+            rec.trans(2)
+            rec.path()
+            try:
+                est.register_background_adaptation(bgd)
+                rc = np.asarray(est.relative_capture(bgd))
+            except Exception as e:  # noqa
+                _v(rec, "f", dict(sig, api="register_background_adaptation", **exc_sig(e)), "background adaptation raised %r" % (e,), dict(K=kname, baseline=bname, op="bg-dim", dim=dim))
+                rec.outcome("exception")
+                continue
+            okv = rc.shape == (m,) and np.all(np.abs(rc - 1.0) <= 1e-12)
+            rec.distinct((m, n, dk, kname, bname, "bg-dim", dim))
+            rec.outcome("bg-adaptation/%s" % ("one" if okv else "not-one"))
+            if not okv:
+                _v(rec, "d", dict(sig, api="register_background_adaptation", op="bg-dim"), "relative capture of a dim adapting background (x %g) is not 1" % dim, dict(K=kname, baseline=bname, op="bg-dim", dim=dim), observed=rc, expected=np.ones(m))
+            if bl is None and dim == 1e-7:
+                check_caps("after-bg-dim", 1.0 / (Qbg * dim + bvec))
         # -- e: system adaptation
-        for xa in (np.ones(n), 0.5 + 0.25 * np.arange(n)):
+        for xa in (np.ones(n), 1e-10 * (1.0 + np.arange(n)), 0.5 + 0.25 * np.arange(n)):
             rec.trans(2)
             rec.path()
             try:
